@@ -1,5 +1,5 @@
 """Property -> rule list. Each rule: (id, text, function(ctx, report))."""
-import rules_cmd, rules_expire, rules_conn, rules_auth, rules_tx, rules_db, rules_zset, rules_rdb, rules_aof, rules_block, rules_pubsub
+import rules_cmd, rules_expire, rules_conn, rules_auth, rules_tx, rules_db, rules_zset, rules_rdb, rules_aof, rules_block, rules_pubsub, rules_stream
 from shared import SERVER
 
 
@@ -103,6 +103,27 @@ def _c14():
     ]
 
 
+def _c15():
+    return [
+        ("R-DISPATCH", "every stream command named by the property has a dispatcher arm with the right effect class and Stream primitive", rules_cmd.make_dispatch_rule("C15")),
+        ("R-ST-GUARD", "an explicit-ID append is dominated by the `id > last_id` test; the refusal edge has no effect", rules_stream.rule_guard),
+        ("R-ST-LASTID", "only additions write the last-ID state (field and atomics), both views move together; trim/delete never write it", rules_stream.rule_lastid),
+        ("R-ST-PAIR", "every change of the entry vector has the matching length-counter update in the same function", rules_stream.rule_st_pair),
+        ("R-ATOMIC", "refused stream commands change nothing", rules_cmd.rule_atomic("C15")),
+    ]
+
+
+def _c16():
+    return [
+        ("R-DISPATCH", "XGROUP/XREADGROUP/XACK/XCLAIM/XPENDING have dispatcher arms reaching the engine", rules_cmd.make_dispatch_rule("C16")),
+        ("R-CG-PAIR", "the two pending indexes are updated together; consumer pending_count and total_pending move with the PEL", rules_stream.rule_cg_pair),
+        ("R-CG-ACK1", "XACK counts an entry only on the Some edge of its removal from the PEL", rules_stream.rule_cg_ack1),
+        ("R-CG-CURSOR", "a delivery advances the group cursor on both sides of the NOACK test", rules_stream.rule_cg_cursor),
+        ("R-CG-START", "the start position given at creation initialises the delivery cursor", rules_stream.rule_cg_start),
+        ("R-ATOMIC", "group administration refused for a bad argument has no effect (no refusal after a mutation)", rules_cmd.rule_atomic("C16")),
+    ]
+
+
 def _c17():
     return [
         ("R-AUTH-GATE", "every privileged call on the frame path is dominated by the pass edge of the authentication gate (in process_frame by dominance and non-reachability from the refuse edge; outside it nothing privileged runs per frame)", rules_auth.rule_gate),
@@ -160,6 +181,8 @@ REGISTRY = {
     "C11": _c11,
     "C13": _c13,
     "C14": _c14,
+    "C15": _c15,
+    "C16": _c16,
     "C17": _c17,
     "C18": _c18,
 }
